@@ -21,7 +21,9 @@ EXPLANATION = ("Union and difference of two shards are ordered two-way merges wh
                "exactly its entries * 48 bytes, the consumed stream's head is reloaded; every record-copying loop advances the output "
                "offset by exactly what it writes (per iteration, or (count) * (record size) right after the loop).  Consolidation "
                "deletes an input only behind the guard that protects returned shards (Mode B).")
-BOUNDS = "all paths of get_next_actions / get_next_actions_for_file_info / compare_flag_superset; all 32-bit flag values; any hash order"
+BOUNDS = ("all paths of get_next_actions / get_next_actions_for_file_info / compare_flag_superset; all 32-bit flag values; any hash order; one step of each "
+          "section's step loop and one iteration / the exit continuation of each record-copying loop of set_operation from an arbitrary state; all CFG paths of "
+          "consolidate_shards_in_directory")
 ASSUMPTIONS = ["<DataHash as Ord>::cmp is a total order and <Ordering as PartialEq>::eq(cmp(a,b), Equal) agrees with it (derived impls)",
                "input shards are sorted by hash without duplicates (C09 side: serialize_from writes BTreeMap order)"]
 OUTSIDE = ["the bytes of the records copied by set_operation and the Merge arm's choice of the stream each optional part is read from (native replay only); decided are the step's stream-index consistency, lookup registration, entry-index and output-offset accounting",
